@@ -133,11 +133,10 @@ class Ctx:
             ft = self.T[f['ty']]
             if ft['k'] == 'bool':
                 out['auto_sync'] = i
+            elif ft.get('adt') == 'std::option::Option' and 'Fn(' in ft['s']:
+                out['checker'] = i
             elif ft.get('adt') == 'std::option::Option' and self._dyn_trait_in(f['ty']):
-                if 'Fn(' in ft['s']:
-                    out['checker'] = i
-                else:
-                    out['write_side'] = i
+                out['write_side'] = i
             elif ft.get('local') and ft['k'] == 'adt':
                 out['read_side'] = i
                 out['read_side_ty'] = f['ty']
@@ -145,6 +144,23 @@ class Ctx:
             if need not in out:
                 raise RoleError('stacked cache field role %s not found in %s' % (need, path))
         return out
+
+    def checker_none_facts(self, entry):
+        """Refinement facts that specialise an exploration of a stacked/read-only cache method to
+        'no consistency checker configured' (both the stacked cache's field and its read side's)."""
+        body = self.B[entry]
+        selfp = SYM('param', '1', body['locals'][1].get('name', 'arg1'))
+        obj = SYM('ld', selfp, '*')
+        facts = {}
+        sty = self.T[body['impl_self_ty']].get('adt') if body.get('impl_self_ty') is not None else None
+        if sty == self.role('stack_cache'):
+            f = self.stack_fields()
+            facts[('var', SYM('fld', obj, 'f%d' % f['checker']))] = 0
+            rs = SYM('fld', obj, 'f%d' % f['read_side'])
+            facts[('var', SYM('fld', rs, 'f%d' % self.readonly_fields()['checker']))] = 0
+        elif sty == self.role('readonly_cache'):
+            facts[('var', SYM('fld', obj, 'f%d' % self.readonly_fields()['checker']))] = 0
+        return facts
 
     def _role_write_trait(self):
         t = self.adt(self.role('stack_cache'))
